@@ -1113,6 +1113,12 @@ mock_impl!(MockLb, {
         match self.0.err2 { Some(e) => Err(e), None => Ok(lb::Response::default()) }
     }
 }, {});
+// an authenticator that overrides the provided version() handler: the Version command must reach it
+mock_impl!(MockVer, {}, {
+    fn version() -> [u8; 6] {
+        *b"U2F_V3"
+    }
+});
 // an authenticator that overrides the protocol-specific entry points themselves (e.g. to refuse everything while locked):
 // the generic Rpc::call must go through the override
 mock_impl!(MockOver, {
@@ -1280,6 +1286,13 @@ fn dispatch1(entry: &str, beh: &str, raw: &[u8]) -> String {
         }
     }
     let res = if entry == "rpc" { Rpc::call(&mut m, &req) } else { m.call_ctap1(&req) };
+    if matches!(req, ctap1::Request::Version) {
+        let mut mv = MockVer(Beh { err2: None, err1: None, log: vec![] });
+        let rv = if entry == "rpc" { Rpc::call(&mut mv, &req) } else { mv.call_ctap1(&req) };
+        if !matches!(rv, Ok(ctap1::Response::Version(v)) if &v == b"U2F_V3") {
+            return "the Version command did not reach the authenticator's own version() handler".into();
+        }
+    }
     {
         let mut mh = MockDefault(Beh { err2: None, err1, log: vec![] });
         let mut r1 = &mut mh;
